@@ -326,7 +326,7 @@ def run(ctx):
                     "timer_counter modelled as unbounded Nat (uint64 in C: wrap needs 2^64 starts)"]
     ctx.assumptions += ["CLOCK_MONOTONIC readings are non-decreasing (uv_now monotone is proved given that)"]
     ctx.gen_lean()      # Tie A: regenerate the kernels from /repo, GenEq re-proves them equal to the model
-    lean_ok = ctx.require_lean(["UvModel.GenEq", "UvModel.Props.C04Heap", "UvModel.Props.C04Timer"])
+    lean_ok = ctx.require_lean(["UvModel.GenEq", "UvModel.Props.C04Heap", "UvModel.Props.C04Timer", "UvModel.Props.HeapPtrRefine"])
     hexe = ctx.harness("c04_heap", ["harness/c04_heap.c"], link_lib=False)
     texe = ctx.harness("c04_timer", ["harness/c04_timer.c"])
     # src/heap-inl.h at the pointer level (left/right/parent cells) against UvModel.HeapPtr: checks/heapptr_tie.py
